@@ -10,16 +10,38 @@ from . import hir as H
 from .facts import nhir, walk
 
 CMP = ("<", "<=", ">", ">=", "==", "!=")
-SIZE_METHODS = ("nth", "take", "skip", "step_by", "chunks", "chunks_exact", "windows", "truncate", "split_at", "get", "split_off", "resize", "splitn", "rsplitn")
+SIZE_METHODS = ("nth", "take", "skip", "step_by", "chunks", "chunks_exact", "rchunks", "windows", "truncate", "split_at", "get", "split_off", "resize", "splitn",
+                "rsplitn", "min", "max", "saturating_sub", "checked_sub", "with_capacity_")
 
 
-def _int_lit(e):
+UNKNOWN_CONST = 1 << 62        # a named constant whose value the extractor cannot see: treated as arbitrarily large
+
+
+def _int_lit(e, f=None, lets=None, depth=0):
+    """the integer a (peeled) expression denotes when it is a literal, a named constant of the crate, or a local bound once
+    to such a value (`let limit = 8;`)"""
     e = H.peel_ref(e) if isinstance(e, dict) else e
     while isinstance(e, dict) and e.get("k") == "cast":
         e = H.peel_ref(e["e"])
-    if isinstance(e, dict) and e.get("k") == "lit" and e["lit"]["t"] == "int" and isinstance(e["lit"]["v"], int):
+    if not isinstance(e, dict) or depth > 4:
+        return None
+    if e.get("k") == "lit" and e["lit"]["t"] == "int" and isinstance(e["lit"]["v"], int):
         return e["lit"]["v"]
+    if e.get("k") == "path" and "Const" in (e.get("dk") or "") and f is not None:
+        c = f.fns.get(e.get("def") or "")
+        ty = f.ty(e.get("ty")) or ""
+        if ty in ("usize", "isize", "u8", "u16", "u32", "u64", "i8", "i16", "i32", "i64", "u128", "i128"):
+            if c is not None and c.get("hir") is not None:
+                v = _int_lit(c["hir"], f, None, depth + 1)
+                return v if v is not None else UNKNOWN_CONST
+            return UNKNOWN_CONST
+    if e.get("k") == "local" and lets is not None and e.get("name") in lets:
+        return _int_lit(lets[e["name"]], f, None, depth + 1)
     return None
+
+
+def _show(v):
+    return "<a named constant of unknown value>" if v == UNKNOWN_CONST else str(v)
 
 
 def thresholds(f, fname, depth=3, seen=None):
@@ -34,28 +56,38 @@ def thresholds(f, fname, depth=3, seen=None):
     except KeyError:
         return []
     short = fname.rsplit("::", 1)[-1]
+    lets, assigned = {}, set()
+    for n in walk(body):
+        if n.get("k") == "stmt_let" and n["pat"].get("k") == "bind" and n.get("init") is not None and not n["pat"].get("mut"):
+            lets.setdefault(n["pat"]["name"], n["init"])
+        if n.get("k") in ("assign", "assignop") and H.place(n.get("l")):
+            assigned.add(H.place(n["l"]))
+    lets = {k_: v_ for k_, v_ in lets.items() if k_ not in assigned}
+
+    def lit(e):
+        return _int_lit(e, f, lets)
     for n in walk(body):
         k = n.get("k")
         if k == "binary" and n.get("op") in CMP + ("%",):
             for side in ("l", "r"):
-                v = _int_lit(n.get(side))
+                v = lit(n.get(side))
                 if v is not None:
-                    out.append((abs(v), n.get("sp"), "%s: `%s` against the constant %d" % (short, n["op"], v)))
+                    out.append((abs(v), n.get("sp"), "%s: `%s` against the constant %s" % (short, n["op"], _show(v))))
         elif k == "binary" and n.get("op") in ("+", "-") and (f.ty(n.get("ty")) or "") in ("usize", "isize", "u32", "i32", "u64", "i64"):
             # an offset from a position / counter (`tokens[i + 1]`, `values[n - 1]`): the table must reach that far
             for side in ("l", "r"):
-                v = _int_lit(n.get(side))
+                v = lit(n.get(side))
                 if v is not None:
-                    out.append((abs(v), n.get("sp"), "%s: offset `%s %d`" % (short, n["op"], v)))
+                    out.append((abs(v), n.get("sp"), "%s: offset `%s %s`" % (short, n["op"], _show(v))))
         elif k == "assignop" and n.get("op") in ("+=", "-="):
-            v = _int_lit(n.get("r"))
+            v = lit(n.get("r"))
             if v is not None:
-                out.append((abs(v), n.get("sp"), "%s: step `%s %d`" % (short, n["op"], v)))
+                out.append((abs(v), n.get("sp"), "%s: step `%s %s`" % (short, n["op"], _show(v))))
         elif k == "mcall" and n.get("name") in SIZE_METHODS:
-            for a in n.get("args") or []:
-                v = _int_lit(a)
+            for a in ([n["recv"]] if n.get("name") in ("min", "max", "saturating_sub", "checked_sub") else []) + list(n.get("args") or []):
+                v = lit(a)
                 if v is not None:
-                    out.append((abs(v), n.get("sp"), "%s: .%s(%d)" % (short, n["name"], v)))
+                    out.append((abs(v), n.get("sp"), "%s: .%s(%s)" % (short, n["name"], _show(v))))
         elif k in ("match", "let", "stmt_let"):
             pats = [a["pat"] for a in n.get("arms") or []] if k == "match" else [n.get("pat")]
             for p in pats:
@@ -81,5 +113,5 @@ def check_bound(run, rule, key, f, fnames, bound, cfg, what):
     bad = sorted(set(t[2] for t in ts if t[0] >= bound))
     run.ob(rule, key, not bad,
            "%s: the table covers sizes up to %d and the code compares sizes / positions only with constants below that (largest: %d)%s" % (
-               what, bound, worst, "" if not bad else " - NOT: " + "; ".join(bad[:3])), cfg=cfg, trivial=not bad)
+               what, bound, min(worst, 10 ** 9), "" if not bad else " - NOT: " + "; ".join(bad[:3])), cfg=cfg, trivial=not bad)
     return not bad
